@@ -243,7 +243,9 @@ def run(prop, tier, seed, t0, a):
         if isinstance(o, dict):
             kf = [f for f in findings if re.search(f['obligation'], o['name']) and f.get('region') in (None, 'extra')]
             if kf:
-                known_lines.append(f"KNOWN-FINDING: property={prop} {kf[0]['what']}")
+                ln = f"KNOWN-FINDING: property={prop} {kf[0]['what']}"
+                if ln not in known_lines:
+                    known_lines.append(ln)
                 modulo.append(o)
             else:
                 still_failed.append(o)
